@@ -1,21 +1,22 @@
 //go:build verif
 
 // c17: admission limits.
-//   kind "chain": the REAL validator chain (security.NewSecurityServices → ports.SecurityChain.Validate)
-//        driven in-process with streams of SecurityRequests (several client ids, health / non-health,
-//        declared body sizes) for a grid of (global, per-ip, health, burst, max-body) limits.
-//   kind "rate":  the production stack (app.CreateAndStartServiceManager) with rate limits set, a client
-//        that uses 1..8 TCP connections, keep-alive on/off, sequential or concurrent bursts, mixed
-//        routes (catch-all proxy, provider proxy, Anthropic translator, /internal/health).
-//   kind "size":  the production stack with a small max_body_size / max_message_size; bodies at
-//        limit−1, limit, limit+1, 5×limit, announced by Content-Length or sent chunked; the backend
-//        reports how many body bytes reached it.
+//
+//	kind "chain": the REAL validator chain (security.NewSecurityServices → ports.SecurityChain.Validate)
+//	     driven in-process with streams of SecurityRequests (several client ids, health / non-health,
+//	     declared body sizes) for a grid of (global, per-ip, health, burst, max-body) limits.
+//	kind "rate":  the production stack (app.CreateAndStartServiceManager) with rate limits set, a client
+//	     that uses 1..8 TCP connections, keep-alive on/off, sequential or concurrent bursts, mixed
+//	     routes (catch-all proxy, provider proxy, Anthropic translator, /internal/health).
+//	kind "size":  the production stack with a small max_body_size / max_message_size; bodies at
+//	     limit−1, limit, limit+1, 5×limit, announced by Content-Length or sent chunked; the backend
+//	     reports how many body bytes reached it.
+//
 // Rates are a few requests per MINUTE so that refill during a scenario (well under a second) is a
 // small fraction of a token and every sequential decision is exact.
 package main
 
 import (
-	"strconv"
 	"bufio"
 	"bytes"
 	"context"
@@ -25,6 +26,7 @@ import (
 	"net"
 	"net/http"
 	"os"
+	"strconv"
 	"strings"
 	"sync"
 	"time"
@@ -450,18 +452,32 @@ func main() {
 				{id, false, 10, 6 * cl}, {id, false, 10, 0}, {id, false, 10, 0}, {id, false, 10, 3 * cl}, {id, false, 10, 0}}
 			chains = append(chains, chainCase{Limits{0, 6, 0, 3, 0}, q})
 		}
+		if tier == "thorough" {
+			// the same, over a silence of more than a minute with a bucket that needs 200 s to refill:
+			// 65 s buy back 6.5 tokens, not a new burst of 20
+			id := "9.9.9.8#c100"
+			var q []ChainReq
+			for i := 0; i < 44; i++ {
+				sl := 0
+				if i == 22 {
+					sl = 65000
+				}
+				q = append(q, ChainReq{id, false, 10, sl})
+			}
+			chains = append(chains, chainCase{Limits{0, 6, 0, 20, 0}, q})
+		}
 		chains = append(chains,
-			chainCase{Limits{0, 2, 0, 2, 0}, mkReqs(6, []string{"1.1.1.1"}, 0, 10)},                          // burst then refuse
-			chainCase{Limits{0, 2, 0, 2, 0}, mkReqs(8, []string{"1.1.1.1:1000", "1.1.1.1:1001"}, 0, 10)},     // two ids, two buckets
-			chainCase{Limits{3, 5, 0, 2, 0}, mkReqs(8, []string{"a", "b", "c"}, 0, 10)},                     // global binds first
-			chainCase{Limits{3, 0, 0, 2, 0}, mkReqs(8, []string{"a"}, 0, 10)},                               // per-ip 0: bypass (even the global limiter)
-			chainCase{Limits{0, 2, 1, 1, 0}, mkReqs(9, []string{"a"}, 3, 10)},                               // health split
-			chainCase{Limits{0, 2, 0, 1, 0}, mkReqs(6, []string{"a"}, 2, 10)},                               // health limit 0: health requests bypass
-			chainCase{Limits{0, 3, 3, 0, 0}, mkReqs(4, []string{"a"}, 0, 10)},                               // burst 0: nothing admitted
+			chainCase{Limits{0, 2, 0, 2, 0}, mkReqs(6, []string{"1.1.1.1"}, 0, 10)},                                                                                           // burst then refuse
+			chainCase{Limits{0, 2, 0, 2, 0}, mkReqs(8, []string{"1.1.1.1:1000", "1.1.1.1:1001"}, 0, 10)},                                                                      // two ids, two buckets
+			chainCase{Limits{3, 5, 0, 2, 0}, mkReqs(8, []string{"a", "b", "c"}, 0, 10)},                                                                                       // global binds first
+			chainCase{Limits{3, 0, 0, 2, 0}, mkReqs(8, []string{"a"}, 0, 10)},                                                                                                 // per-ip 0: bypass (even the global limiter)
+			chainCase{Limits{0, 2, 1, 1, 0}, mkReqs(9, []string{"a"}, 3, 10)},                                                                                                 // health split
+			chainCase{Limits{0, 2, 0, 1, 0}, mkReqs(6, []string{"a"}, 2, 10)},                                                                                                 // health limit 0: health requests bypass
+			chainCase{Limits{0, 3, 3, 0, 0}, mkReqs(4, []string{"a"}, 0, 10)},                                                                                                 // burst 0: nothing admitted
 			chainCase{Limits{0, 100, 0, 3, 1000}, []ChainReq{{"a", false, 999, 0}, {"a", false, 1000, 0}, {"a", false, 1001, 0}, {"a", false, -1, 0}, {"a", false, 5000, 0}}}, // size on declared length only
 			chainCase{Limits{0, 1, 0, 1, 1000}, []ChainReq{{"a", false, 5000, 0}, {"a", false, 10, 0}}},                                                                       // an oversize request still spends the token
-			chainCase{Limits{0, 120, 0, 1, 0}, []ChainReq{{"a", false, 1, 0}, {"a", false, 1, 100}, {"a", false, 1, 700}, {"a", false, 1, 50}}},                              // refill: 2 tokens/s
-			chainCase{Limits{0, 60, 0, 2, 0}, []ChainReq{{"a", false, 1, 0}, {"a", false, 1, 0}, {"a", false, 1, 0}, {"a", false, 1, 1300}, {"a", false, 1, 0}}},             // refill: 1 token/s
+			chainCase{Limits{0, 120, 0, 1, 0}, []ChainReq{{"a", false, 1, 0}, {"a", false, 1, 100}, {"a", false, 1, 700}, {"a", false, 1, 50}}},                               // refill: 2 tokens/s
+			chainCase{Limits{0, 60, 0, 2, 0}, []ChainReq{{"a", false, 1, 0}, {"a", false, 1, 0}, {"a", false, 1, 0}, {"a", false, 1, 1300}, {"a", false, 1, 0}}},              // refill: 1 token/s
 		)
 		nchain := 150
 		if tier == "thorough" {
@@ -489,9 +505,9 @@ func main() {
 
 		// ---- rate: the three design-time witnesses first
 		rates = append(rates,
-			&RateScenario{Lim: Limits{0, 2, 0, 2, 0}, Conns: 5, KeepAlive: false, Plan: []PlanItem{{0, "proxy"}, {1, "proxy"}, {2, "proxy"}, {3, "proxy"}, {4, "proxy"}}}, // one bucket per connection
+			&RateScenario{Lim: Limits{0, 2, 0, 2, 0}, Conns: 5, KeepAlive: false, Plan: []PlanItem{{0, "proxy"}, {1, "proxy"}, {2, "proxy"}, {3, "proxy"}, {4, "proxy"}}},   // one bucket per connection
 			&RateScenario{Lim: Limits{0, 2, 0, 2, 0}, Conns: 1, KeepAlive: true, Plan: []PlanItem{{0, "proxy"}, {0, "proxy"}, {0, "proxy"}, {0, "provider"}, {0, "proxy"}}}, // refusal status
-			&RateScenario{Lim: Limits{0, 1, 0, 1, 0}, Conns: 1, KeepAlive: true, Plan: []PlanItem{{0, "anthropic"}, {0, "anthropic"}, {0, "anthropic"}, {0, "anthropic"}}}, // translator route
+			&RateScenario{Lim: Limits{0, 1, 0, 1, 0}, Conns: 1, KeepAlive: true, Plan: []PlanItem{{0, "anthropic"}, {0, "anthropic"}, {0, "anthropic"}, {0, "anthropic"}}},  // translator route
 			&RateScenario{Lim: Limits{0, 2, 1, 2, 0}, Conns: 1, KeepAlive: true, Plan: []PlanItem{{0, "health"}, {0, "health"}, {0, "proxy"}, {0, "health"}, {0, "proxy"}, {0, "proxy"}}},
 		)
 		grid := []Limits{{0, 2, 0, 2, 0}, {0, 1, 0, 1, 0}, {0, 3, 0, 2, 0}, {0, 6, 0, 3, 0}, {0, 2, 0, 5, 0}, {3, 2, 0, 2, 0}, {2, 5, 0, 1, 0}, {4, 0, 0, 2, 0}, {0, 4, 1, 2, 0}}
@@ -563,8 +579,8 @@ func main() {
 	var jobs []job
 	var mu sync.Mutex
 	type emitted struct {
-		order int
-		m     map[string]any
+		order  int
+		m      map[string]any
 		bucket string
 	}
 	var outs []emitted
